@@ -64,6 +64,7 @@ type Check struct {
 	Overrides   []Override `json:"overrides"`
 	NoInit      []string   `json:"no_init"`
 	Summarize   []string   `json:"summarize"`
+	FuncStubs   map[string]string `json:"func_stubs"`
 	Assumptions []string   `json:"assumptions"`
 	Stubs       []string   `json:"stubs"`
 	BoundsText  string     `json:"bounds_text"`
@@ -352,7 +353,7 @@ func toConfig(b Bounds, c *Check, tier string) *sx.Config {
 	cfg := &sx.Config{
 		MaxSteps: b.MaxSteps, MaxPaths: b.MaxPaths, MaxIndexFork: b.MaxIndexFork, WallS: b.WallS, TimeoutMs: b.TimeoutMs,
 		Workers: b.Workers, Solver: b.Solver, Solver2: b.Solver2, LoopBound: b.LoopBound, SampleModels: b.Samples,
-		NoInit: c.NoInit, Summarize: c.Summarize, Thorough: tier == "thorough",
+		NoInit: c.NoInit, Summarize: c.Summarize, FuncStubs: c.FuncStubs, Thorough: tier == "thorough",
 	}
 	if b.Mode == "int" {
 		cfg.Mode = term.ModeInt
